@@ -24,55 +24,24 @@
 (* Dev = {} is the reference design; each name in Dev switches one action  *)
 (* to what a defective implementation does.                                *)
 (***************************************************************************)
-EXTENDS Naturals, Sequences, FiniteSets, TLC
+EXTENDS Naturals, Sequences, FiniteSets, TLC, SoyLexProto
 
 CONSTANTS Dev,        \* set of deviation names
           Entries,    \* subset of {"file", "expr"}: parse.SoyFile / parse.Expr
           MaxDepth,   \* bound on the parser's frame stack
           MaxLine,    \* lines are 1..MaxLine
-          Skew,       \* emit events that may be logged ahead of their next event
-          ZeroBound,  \* receives on the closed channel a parser may make
           KeepHist    \* keep the history of consumed tokens (needs VIEW View)
 
 DevNames == {"switch_ignores_unknown", "expr_no_drain", "quoted_no_drain",
              "recover_no_drain", "emit_after_close", "error_uses_zero_item",
-             "quoted_pos_relative", "zero_deref"}
+             "quoted_pos_relative", "runtime_panic_in_frame"}
 
-Terminal == {"EOF", "Error"}
 Zero == [c |-> "Zero", ln |-> 0]
 Trees == {1, 2}
 
-(***************************************************************************)
-(* PROTOCOL of one scanner instance as the hooks of the real code show it  *)
-(* (events step / emit / next / close / return).  These operators are      *)
-(* used twice: the model below keeps a protocol state per scanner and      *)
-(* asserts that each of its own actions is allowed (ProtoRefined), and     *)
-(* SoyLexParseTrace.tla runs the recorded events of real parses through    *)
-(* the same operators.                                                     *)
-(*   ph      run | term (last item logged) | closed                         *)
-(*   infl    items logged by emit and not yet by next                       *)
-(*   drained an item was sent while Skew items were unreceived: someone    *)
-(*           other than the parser's next() is receiving (drain)           *)
-(*   zeros   receives on the closed channel                                 *)
-(***************************************************************************)
-PInit == [ph |-> "run", infl |-> <<>>, drained |-> FALSE, zeros |-> 0]
-PCanStep(p)  == p.ph = "run"
-PCanEmit(p)  == p.ph = "run"
-PEmit(p, c)  ==
-  LET over == p.drained \/ Len(p.infl) >= Skew IN
-  [p EXCEPT !.ph = IF c \in Terminal THEN "term" ELSE "run",
-            !.infl = IF over THEN <<>> ELSE Append(p.infl, c),
-            !.drained = over]
-PCanNext(p, c) ==
-  /\ ~p.drained
-  /\ IF p.infl # <<>> THEN c = Head(p.infl)
-     ELSE c = "Zero" /\ p.ph = "closed" /\ p.zeros < ZeroBound
-PNext(p, c)  == IF p.infl # <<>> THEN [p EXCEPT !.infl = Tail(p.infl)]
-                ELSE [p EXCEPT !.zeros = p.zeros + 1]
-PCanClose(p) == p.ph = "term"
-PClose(p)    == [p EXCEPT !.ph = "closed"]
-\* the scanner can no longer block: closed, or its last item has been received
-PCanReturn(p) == p.ph = "closed" \/ (p.ph = "term" /\ p.infl = <<>> /\ ~p.drained)
+\* The PROTOCOL of one scanner instance as the hooks of the real code show it
+\* (PInit, PCanEmit/PEmit, PCanNext/PNext, PCanClose/PClose, PCanReturn) is in
+\* SoyLexProto.tla; it is shared with the trace validator SoyLexParseTrace.tla.
 
 (***************************************************************************)
 (* Parser frames                                                           *)
@@ -262,30 +231,38 @@ StrictStep ==
        [] f.k = "switch" /\ "switch_ignores_unknown" \in Dev ->
             \* parseSwitch: no default arm, the token is dropped and the loop goes on
             /\ UNCHANGED <<stack, pst, pkind, errLine, drain, after, leaked>>
-       [] t.c = "Zero" /\ "zero_deref" \in Dev ->
+       [] t.c = "other" /\ "runtime_panic_in_frame" \in Dev ->
+            \* e.g. a nil/zero dereference: a runtime.Error, which recover() re-panics
             /\ Raise(tr, t, lastTok'[tr], "rt")
             /\ UNCHANGED <<stack, drain, after, leaked>>
        [] OTHER ->
             /\ Raise(tr, t, lastTok'[tr], "err")
             /\ UNCHANGED <<stack, drain, after, leaked>>
 
+\* parseExpr / parseDataRef: the first term must be a value (parseExprFirstTerm
+\* calls unexpected otherwise); after it the loop backs up and returns on the
+\* first token it has no arm for.
 PeekyStep ==
   LET f == Top  tr == f.tr  t == Peeked(tr) IN
   /\ Style(f.k) = "peeky" /\ CanRead(tr)
   /\ consumed' = t.c
-  /\ hist' = H(<<f.k \o ":" \o t.c>>)
-  /\ UNCHANGED <<entry, stop, lines, pst, pkind, errLine, leaked>>
+  /\ hist' = H(<<f.k \o "." \o f.ph \o ":" \o t.c>>)
+  /\ UNCHANGED <<entry, stop, lines, leaked>>
   /\ IF t.c = "cont"
      THEN /\ ReadEffect(tr)
-          /\ \/ stack' = stack
+          /\ \/ stack' = SetTop([f EXCEPT !.ph = "loop"])
              \/ \E ch \in Children(f.k) :
                   /\ Len(stack) < MaxDepth
-                  /\ stack' = Append(stack, Frame(ch, tr))
-          /\ UNCHANGED <<drain, after>>
+                  /\ stack' = Append(SetTop([f EXCEPT !.ph = "loop"]), Frame(ch, tr))
+          /\ UNCHANGED <<drain, after, pst, pkind, errLine>>
+     ELSE IF f.ph = "tok" /\ f.k = "binop"
+     THEN /\ ReadEffect(tr)
+          /\ Raise(tr, t, lastTok'[tr], "err")
+          /\ UNCHANGED <<stack, drain, after>>
      ELSE \* no arm: backup() and return to the caller
           /\ ReadBackEffect(tr)
           /\ stack' = Pop
-          /\ UNCHANGED <<drain, after>>
+          /\ UNCHANGED <<drain, after, pst, pkind, errLine>>
 
 \* itemList/textOrTag: token, then one token of lookahead, then dispatch
 IListStep ==
@@ -331,7 +308,7 @@ IListStep ==
 QuotedStep ==
   LET f == Top  t == Peeked(2) IN
   /\ Style(f.k) = "quoted"
-  /\ UNCHANGED <<entry, stop, lines, pst, pkind, errLine>>
+  /\ UNCHANGED <<entry, stop, lines>>
   /\ IF f.ph = "tok"
      THEN /\ Spawn2
           /\ consumed' = ""
@@ -339,24 +316,29 @@ QuotedStep ==
           /\ proto' = [proto EXCEPT ![2] = PInit]
           /\ buf' = [buf EXCEPT ![2] = <<>>]
           /\ lastTok' = [lastTok EXCEPT ![2] = Zero]
-          /\ stack' = SetTop([f EXCEPT !.ph = "loop"])
+          /\ stack' = SetTop([f EXCEPT !.ph = "first"])
           /\ hist' = H(<<"quoted:spawn">>)
-          /\ UNCHANGED <<drain, after, bad>>
-     ELSE \* the expression loop (precedence climbing) on tree 2
+          /\ UNCHANGED <<drain, after, bad, pst, pkind, errLine>>
+     ELSE \* the expression (first term, then precedence climbing) on tree 2
           /\ CanRead(2)
           /\ consumed' = t.c
-          /\ hist' = H(<<"quoted:" \o t.c>>)
+          /\ hist' = H(<<"quoted." \o f.ph \o ":" \o t.c>>)
           /\ UNCHANGED leaked
           /\ IF t.c = "cont"
              THEN /\ ReadEffect(2)
-                  /\ \/ stack' = stack
+                  /\ \/ stack' = SetTop([f EXCEPT !.ph = "loop"])
                      \/ \E ch \in Children("binop") :
                           /\ Len(stack) < MaxDepth
-                          /\ stack' = Append(stack, Frame(ch, 2))
-                  /\ UNCHANGED <<drain, after>>
+                          /\ stack' = Append(SetTop([f EXCEPT !.ph = "loop"]), Frame(ch, 2))
+                  /\ UNCHANGED <<drain, after, pst, pkind, errLine>>
+             ELSE IF f.ph = "first"
+             THEN /\ ReadEffect(2)
+                  /\ Raise(2, t, lastTok'[2], "err")
+                  /\ UNCHANGED <<stack, drain, after>>
              ELSE /\ ReadBackEffect(2)
                   /\ stack' = Pop
                   /\ PopTo("quoted", "")
+                  /\ UNCHANGED <<pst, pkind, errLine>>
 
 \* an unwinding panic leaves one frame per step
 Unwind ==
